@@ -125,14 +125,15 @@ def e2e_chunk(item):
     from mc import traces
     from phyclone.process_trace import write_consensus_results
 
-    seqs, n_trees = item
+    seqs, n_trees = item[:2]
+    shift = item[2] if len(item) > 2 else 0.0  # realistic traces score thousands of log units below zero: only differences matter
     data = traces.named_data(3, grid=3, outlier_prob=0.2)
     alpha = e2e_alphabet()[:n_trees]
     trees = [oracle.build(s, data) for s in alpha]
     alt = [oracle.build(s, data, reverse_siblings=True) for s in alpha]
     for t in trees + alt:
         t.relabel_nodes()
-    scores = (-1.0, -2.0, -4.0)
+    scores = (-1.0 + shift, -2.0 + shift, -4.0 + shift)
     name_to_idx = {str(x.name): x.idx for x in data}
     res = {"n": 0, "skipped": 0, "problems": []}
     d = traces.scratch("c16_")
@@ -152,7 +153,8 @@ def e2e_chunk(item):
                 if mode == "counts":
                     w = {t: c / len(ents) for t, c in cnt.items()}
                 else:
-                    raw = {t: cnt[t] * math.exp(best[t]) for t in cnt}
+                    top = max(best.values())
+                    raw = {t: cnt[t] * math.exp(best[t] - top) for t in cnt}
                     z = sum(raw.values())
                     w = {t: v / z for t, v in raw.items()}
                 sup = {}
@@ -166,7 +168,7 @@ def e2e_chunk(item):
                     want = {c for c, v in sup.items() if v > th}
                     tb, tr = os.path.join(d, "c.tsv"), os.path.join(d, "c.nwk")
                     res["n"] += 1
-                    ctx = {"entries": [[["chain", "fork", "separate", "reverse-chain", "pair+outlier"][t], sc] for t, sc in ents], "split": split, "mode": mode, "threshold": th}
+                    ctx = {"entries": [[["chain", "fork", "separate", "reverse-chain", "pair+outlier"][t], sc] for t, sc in ents], "split": split, "mode": mode, "threshold": th, "score_shift": shift}
                     try:
                         traces.quiet(write_consensus_results, path, tb, tr, consensus_threshold=th, weight_type=mode)
                         dec, dp = traces.decode(traces.read_table(tb), open(tr).read().strip(), name_to_idx)
@@ -194,7 +196,10 @@ def e2e_items(tier):
                 continue
             for split in ((l,) if l == 1 else (l, 1)):
                 seqs.append((seq, split))
-    return [(seqs[i:i + 60], n_trees) for i in range(0, len(seqs), 60)]
+    out = [(seqs[i:i + 60], n_trees) for i in range(0, len(seqs), 60)]
+    # the same traces with every score lowered by a constant (supports are unchanged): scores of real runs are far below -745
+    out += [(c[0], c[1], -1200.0) for c in out[::3]] + [(c[0], c[1], -40000.0) for c in out[1::6]]
+    return out
 
 
 def large_chunk(item):
@@ -340,8 +345,9 @@ def replay(path):
     if "e2e" in rp:
         t = rp["e2e"]
         names = ["chain", "fork", "separate", "reverse-chain", "pair+outlier"]
-        seq = tuple(names.index(nm) * 3 + (-1.0, -2.0, -4.0).index(sc) for nm, sc in t["entries"])
-        r = e2e_chunk(([(seq, t["split"])], 5))
+        sh = float(t.get("score_shift", 0.0))
+        seq = tuple(names.index(nm) * 3 + [round(x + sh, 6) for x in (-1.0, -2.0, -4.0)].index(round(sc, 6)) for nm, sc in t["entries"])
+        r = e2e_chunk(([(seq, t["split"])], 5, sh))
         print(r["problems"])
         return 1 if r["problems"] else 0
     data, states, trees, clades = universe(rp["n"], rp["outliers"])
